@@ -15,7 +15,7 @@ import json, struct
 from vlib import *
 import translate
 
-MODULES = ["JxlModel.Props.C14"]
+MODULES = ["JxlModel.Props.C14", "JxlModel.Props.C14Toc"]
 
 # ---------------------------------------------------------------------------------------------
 # value generation from the descriptions exported by the model (`jxlmodel c14` op `desc`)
